@@ -108,6 +108,8 @@ def _strip_node(case: dict, gi: int, n: str) -> dict | None:
                         ck = {"S": "cS" if "cS" in a else "c", "T": "cT"}[k]
                         if a.get(ck) == "single" and len(a[k]) != 1:
                             a[ck] = "list"
+                if "C" in a:
+                    a["C"] = [x for x in a["C"] if x != n]
                 if "I" in a:
                     a["I"] = [x for x in a["I"] if x[0] != n]
                 if a.get("order"):
@@ -115,6 +117,8 @@ def _strip_node(case: dict, gi: int, n: str) -> dict | None:
         rnd["evolve"] = [
             [gj, [s for s in steps if gj != gi or n not in s[1:]]] for gj, steps in rnd.get("evolve", [])
         ]
+        if rnd.get("evolve_results"):
+            rnd["evolve_results"] = [[rk, [s for s in steps if n not in s[1:]]] for rk, steps in rnd["evolve_results"]]
     for q in c.get("queries", []):
         if q["g"] == gi:
             q["X"] = [x for x in q["X"] if x != n]
@@ -123,143 +127,181 @@ def _strip_node(case: dict, gi: int, n: str) -> dict | None:
 
 
 def minimise(case: dict, sig: str, max_runs: int = 400) -> tuple[dict, dict]:
-    """Return (minimised explicit case, info)."""
+    """Return (minimised explicit case, info) for a violation observed inside one execution."""
     budget = Budget(max_runs)
-    info: dict[str, Any] = {"sig": sig, "steps": []}
-    if not _fails(case, sig, budget):
-        info["reproduced"] = False
-        return case, info
-    info["reproduced"] = True
-    cur = copy.deepcopy(case)
+    cases, info = minimise_many([case], lambda cs: _fails(cs[0], sig, budget), budget)
+    info["sig"] = sig
+    return cases[0], info
 
-    def attempt(cand: dict | None, label: str) -> bool:
+
+def minimise_many(cases: list[dict], fails: Callable[[list[dict]], bool], budget: Budget) -> tuple[list[dict], dict]:
+    """Delta-debug one or several realisations of the same abstract scenario *jointly*.
+
+    Every edit (drop a round, an op, a node, an edge, an argument ...) is applied to all
+    realisations; schedules and construction histories are per realisation.  `fails`
+    decides whether a candidate list still shows the violation.
+    """
+    info: dict[str, Any] = {"steps": []}
+    if not fails(cases):
+        info["reproduced"] = False
+        return cases, info
+    info["reproduced"] = True
+    cur = copy.deepcopy(cases)
+
+    def attempt(cand: list | None, label: str) -> bool:
         nonlocal cur
-        if cand is None:
+        if cand is None or any(c is None for c in cand):
             return False
-        if _fails(cand, sig, budget):
+        if budget.left <= 0:
+            return False
+        if fails(cand):
             cur = cand
             info["steps"].append(label)
             return True
         return False
 
+    def each(f: Callable[[dict], dict | None]) -> list:
+        return [f(copy.deepcopy(c)) for c in cur]
+
     # 1. populations: seq alone, else seq + one other
-    c = copy.deepcopy(cur)
-    c["pops"] = [p for p in c["pops"] if p["name"] == "seq"]
-    if not attempt(c, "only-sequential-population") and len(cur["pops"]) > 2:
-        for name in [p["name"] for p in cur["pops"] if p["name"] != "seq"]:
-            c = copy.deepcopy(cur)
-            c["pops"] = [p for p in c["pops"] if p["name"] in ("seq", name)]
-            if attempt(c, f"only-population-{name}"):
+    def only_pops(names: tuple) -> Callable[[dict], dict]:
+        def f(c: dict) -> dict:
+            c["pops"] = [p for p in c["pops"] if p["name"] in names]
+            return c
+        return f
+
+    if not attempt(each(only_pops(("seq",))), "only-sequential-population") and len(cur[0]["pops"]) > 2:
+        for name in [p["name"] for p in cur[0]["pops"] if p["name"] != "seq"]:
+            if attempt(each(only_pops(("seq", name))), f"only-population-{name}"):
                 break
     # 2. is it an interleaving bug at all?
-    nonseq = [p for p in cur["pops"] if p["name"] != "seq"]
+    nonseq = [p for p in cur[0]["pops"] if p["name"] != "seq"]
     if nonseq:
-        c = copy.deepcopy(cur)
-        for p in c["pops"]:
-            if p["name"] != "seq":
-                p["schedule"] = {}
-        if attempt(c, "schedule-made-sequential"):
-            info["interleaving_needed"] = False
-        else:
-            info["interleaving_needed"] = True
-        c = copy.deepcopy(cur)
-        for p in c["pops"]:
-            p["aborts"] = {}
-        if any(p.get("aborts") for p in cur["pops"]):
-            info["abort_needed"] = not attempt(c, "aborts-dropped")
+        def seq_sched(c: dict) -> dict:
+            for p in c["pops"]:
+                if p["name"] != "seq":
+                    p["schedule"] = {}
+            return c
+
+        info["interleaving_needed"] = not attempt(each(seq_sched), "schedule-made-sequential")
+
+        def no_aborts(c: dict) -> dict:
+            for p in c["pops"]:
+                p["aborts"] = {}
+            return c
+
+        if any(p.get("aborts") and any(p["aborts"].values()) for c in cur for p in c["pops"]):
+            info["abort_needed"] = not attempt(each(no_aborts), "aborts-dropped")
     # 3. rounds from the end
-    while len(cur["rounds"]) > 1:
-        c = copy.deepcopy(cur)
-        c["rounds"].pop()
-        if not attempt(c, "drop-last-round"):
+    while len(cur[0]["rounds"]) > 1:
+        def drop_last(c: dict) -> dict:
+            c["rounds"].pop()
+            return c
+
+        if not attempt(each(drop_last), "drop-last-round"):
             break
     # 4. ops -> nop (indices stay stable so schedules and references keep their meaning)
     ops = [
         (r, cn, k)
-        for r, rnd in enumerate(cur["rounds"])
+        for r, rnd in enumerate(cur[0]["rounds"])
         for cn in sorted(rnd["scripts"])
         for k, spec in enumerate(rnd["scripts"][cn])
         if spec["op"] != "nop"
     ]
 
-    def with_ops(keep: list) -> dict:
-        c = copy.deepcopy(cur)
+    def with_ops(keep: list) -> list:
         ks = set(keep)
-        for r, rnd in enumerate(c["rounds"]):
-            for cn in rnd["scripts"]:
-                for k, spec in enumerate(rnd["scripts"][cn]):
-                    if spec["op"] != "nop" and (r, cn, k) not in ks:
-                        rnd["scripts"][cn][k] = {"op": "nop"}
-        return c
 
-    kept = _ddmin_list(ops, lambda keep: _fails(with_ops(keep), sig, budget))
+        def f(c: dict) -> dict:
+            for r, rnd in enumerate(c["rounds"]):
+                for cn in rnd["scripts"]:
+                    for k, spec in enumerate(rnd["scripts"][cn]):
+                        if spec["op"] != "nop" and (r, cn, k) not in ks:
+                            rnd["scripts"][cn][k] = {"op": "nop"}
+            return c
+
+        return each(f)
+
+    kept = _ddmin_list(ops, lambda keep: budget.left > 0 and fails(with_ops(keep)))
     cur = with_ops(kept)
     info["steps"].append(f"ops {len(ops)}->{len(kept)}")
+
     # drop callers that only have nops, trailing nops
-    c = copy.deepcopy(cur)
-    for rnd in c["rounds"]:
-        for cn in list(rnd["scripts"]):
-            sc = rnd["scripts"][cn]
-            while sc and sc[-1]["op"] == "nop":
-                sc.pop()
-            if not sc:
-                del rnd["scripts"][cn]
-    attempt(c, "drop-idle-callers")
+    def drop_idle(c: dict) -> dict:
+        for rnd in c["rounds"]:
+            for cn in list(rnd["scripts"]):
+                sc = rnd["scripts"][cn]
+                while sc and sc[-1]["op"] == "nop":
+                    sc.pop()
+                if not sc:
+                    del rnd["scripts"][cn]
+        return c
+
+    attempt(each(drop_idle), "drop-idle-callers")
     # 5. evolve steps
-    for r, rnd in enumerate(cur["rounds"]):
-        if rnd.get("evolve"):
-            c = copy.deepcopy(cur)
-            c["rounds"][r]["evolve"] = []
-            attempt(c, f"drop-evolve-{r}")
-    # 6. schedule entries and aborts
-    for pi, p in enumerate(cur["pops"]):
-        for r in list((p.get("schedule") or {}).keys()):
-            entries = cur["pops"][pi]["schedule"][r]
-            inner = [e for e in entries if e[1] not in ("begin", "end")]
-            if not inner:
-                continue
+    for r, rnd in enumerate(cur[0]["rounds"]):
+        for field in ("evolve", "evolve_results"):
+            if rnd.get(field):
+                def drop_ev(c: dict, r: int = r, field: str = field) -> dict:
+                    c["rounds"][r][field] = []
+                    return c
 
-            def with_sched(keep: list, pi: int = pi, r: str = r, entries: list = entries) -> dict:
-                c = copy.deepcopy(cur)
-                ks = [tuple(e) for e in keep]
-                c["pops"][pi]["schedule"][r] = [
-                    e for e in entries if e[1] in ("begin", "end") or tuple(e) in ks
-                ]
-                return c
+                attempt(each(drop_ev), f"drop-{field}-{r}")
+    # 6. schedule entries and aborts (per realisation)
+    for ci in range(len(cur)):
+        for pi, p in enumerate(cur[ci]["pops"]):
+            for r in list((p.get("schedule") or {}).keys()):
+                entries = cur[ci]["pops"][pi]["schedule"][r]
+                inner = [e for e in entries if e[1] not in ("begin", "end")]
+                if not inner:
+                    continue
 
-            kept_s = _ddmin_list(inner, lambda keep: _fails(with_sched(keep), sig, budget))
-            cur = with_sched(kept_s)
-            info["steps"].append(f"switches[{p['name']},{r}] {len(inner)}->{len(kept_s)}")
-    # 7. histories -> canonical
-    for gi in range(len(cur["graphs"])):
-        c = copy.deepcopy(cur)
-        c["histories"][gi] = world.canonical_history(c["graphs"][gi])
-        if attempt(c, f"history-{gi}-canonical"):
-            info.setdefault("history_irrelevant", []).append(gi)
+                def with_sched(keep: list, ci: int = ci, pi: int = pi, r: str = r, entries: list = entries) -> list:
+                    cand = copy.deepcopy(cur)
+                    ks = [tuple(e) for e in keep]
+                    cand[ci]["pops"][pi]["schedule"][r] = [
+                        e for e in entries if e[1] in ("begin", "end") or tuple(e) in ks
+                    ]
+                    return cand
+
+                kept_s = _ddmin_list(inner, lambda keep: budget.left > 0 and fails(with_sched(keep)))
+                cur = with_sched(kept_s)
+                info["steps"].append(f"switches[{ci},{p['name']},{r}] {len(inner)}->{len(kept_s)}")
+    # 7. histories -> canonical (per realisation and graph)
+    for ci in range(len(cur)):
+        for gi in range(len(cur[ci]["graphs"])):
+            cand = copy.deepcopy(cur)
+            cand[ci]["histories"][gi] = world.canonical_history(cand[ci]["graphs"][gi])
+            if attempt(cand, f"history-{ci}.{gi}-canonical"):
+                info.setdefault("history_irrelevant", []).append([ci, gi])
     # 8. nodes, then edges
-    for gi in range(len(cur["graphs"])):
-        for n in list(cur["graphs"][gi]["nodes"]):
-            attempt(_strip_node(cur, gi, n), f"drop-node-{gi}-{n}")
+    for gi in range(len(cur[0]["graphs"])):
+        for n in list(cur[0]["graphs"][gi]["nodes"]):
+            attempt([_strip_node(c, gi, n) for c in cur], f"drop-node-{gi}-{n}")
         for kind in ("D", "B"):
-            for e in list(cur["graphs"][gi][kind]):
-                c = copy.deepcopy(cur)
-                g = c["graphs"][gi]
-                g[kind] = [x for x in g[kind] if x != e]
-                c["histories"][gi] = restrict_history(c["histories"][gi], g)
-                attempt(c, f"drop-edge-{gi}-{kind}-{e}")
+            for e in list(cur[0]["graphs"][gi][kind]):
+                def drop_edge(c: dict, gi: int = gi, kind: str = kind, e: list = e) -> dict:
+                    g = c["graphs"][gi]
+                    g[kind] = [x for x in g[kind] if x != e]
+                    c["histories"][gi] = restrict_history(c["histories"][gi], g)
+                    return c
+
+                attempt(each(drop_edge), f"drop-edge-{gi}-{kind}-{e}")
     # 9. argument sets
-    for r, rnd in enumerate(cur["rounds"]):
+    for r, rnd in enumerate(cur[0]["rounds"]):
         for cn in sorted(rnd["scripts"]):
             for k, spec in enumerate(rnd["scripts"][cn]):
                 a = spec.get("a") or {}
-                for key in ("S", "T", "I"):
+                for key in ("S", "T", "I", "C"):
                     for x in list(a.get(key, [])):
-                        c = copy.deepcopy(cur)
-                        aa = c["rounds"][r]["scripts"][cn][k]["a"]
-                        aa[key] = [y for y in aa[key] if y != x]
-                        for ck in ("c", "cS", "cT"):
-                            if aa.get(ck) == "single":
-                                aa[ck] = "list"
-                        attempt(c, f"shrink-arg-{r}.{cn}.{k}.{key}")
+                        def shrink(c: dict, r: int = r, cn: str = cn, k: int = k, key: str = key, x: Any = x) -> dict:
+                            aa = c["rounds"][r]["scripts"][cn][k]["a"]
+                            aa[key] = [y for y in aa[key] if y != x]
+                            for ck in ("c", "cS", "cT"):
+                                if aa.get(ck) == "single":
+                                    aa[ck] = "list"
+                            return c
+
+                        attempt(each(shrink), f"shrink-arg-{r}.{cn}.{k}.{key}")
     info["runs"] = budget.used
     return cur, info
